@@ -256,8 +256,14 @@ def run(ctx, cfg):
             hist = cfg['hist']
             cur = dict(exp)
             final_sig = sig
+
+            def touch():
+                # read every column as an attribute (what a user does between two steps of a history)
+                for c in list(bm.df_features.columns):
+                    getattr(bm, c)
             if hist == 'fit_edit_fit':
                 bm.fit(sig, 500.0, (8.0, 12.0))
+                touch()
                 m2 = ctx.integer('m_new')
                 ctx.assume(m2 >= 0)
                 ctx.assume(m2 <= 3)
@@ -272,16 +278,19 @@ def run(ctx, cfg):
                 bm.fit(sig, 500.0, (8.0, 12.0))
             elif hist == 'fit_recompute_fit':
                 bm.fit(sig, 500.0, (8.0, 12.0))
+                touch()
                 r = ctx.real('r')
                 ctx.assume(r >= 0)
                 ctx.assume(r <= 1)
                 try:
                     bm.recompute_edges(r)
+                    touch()
                 except ValueError:
                     pass        # lowered threshold left [0, 1]: rejected, state must still be clean
                 bm.fit(sig, 500.0, (8.0, 12.0))
             elif hist == 'load_fit':
                 bm.load(pd.DataFrame({'volt_amp': [1.0]}), np.zeros(3), 100.0, (1.0, 2.0))
+                touch()
                 bm.fit(sig, 500.0, (8.0, 12.0))
             elif hist == 'fitA_fitB':
                 y = [ctx.real('y%d' % i) for i in range(n)]
@@ -290,6 +299,7 @@ def run(ctx, cfg):
                 tables.append((y, tabA))     # same arbitrary table: what matters is which signal is analysed
                 sigB = np.array(list(y), dtype=float)
                 bm.fit(sig, 500.0, (8.0, 12.0))
+                touch()
                 bm.fit(sigB, 500.0, (8.0, 12.0))
                 final_sig = sigB
             fresh = fit.Bycycle(center_extrema=centre, burst_method=method, burst_kwargs=dict(bk), thresholds=dict(cur))
@@ -298,6 +308,11 @@ def run(ctx, cfg):
             obl = []
             dict_eq(ctx, bm.thresholds, cur, 'thresholds hold exactly the current settings', obl)
             dict_eq(ctx, bm.burst_kwargs, bk, 'burst_kwargs hold exactly the current settings', obl)
+            for c in list(bm.df_features.columns):
+                got, want = ctx.tolist(getattr(bm, c)), ctx.tolist(bm.df_features[c])
+                obl.append((len(got) == len(want), 'attribute access returns the current table column'))
+                obl += [(c15._eqv(ctx, u, v), 'attribute access returns the current table column (not one read earlier in the history)')
+                        for u, v in zip(got, want)]
             ctx.prove_all(obl)
         except Exception as e:
             ctx.fail(exc_label(e))
@@ -390,6 +405,8 @@ def run(ctx, cfg):
         df = bc.detect_bursts_cycles(pd.DataFrame(data), **thr)
         bm = fit.Bycycle(thresholds=dict(thr))
         bm.load(df, np.zeros(3), 500.0, (8.0, 12.0))
+        for c in list(df.columns):
+            getattr(bm, c)
         try:
             bm.recompute_edges(r)
             lowered = {k: (v - r if k.endswith('_threshold') else v) for k, v in thr.items()}
@@ -400,6 +417,9 @@ def run(ctx, cfg):
         tables_equal(ctx, bm.df_features, ref, 'recompute_edges(r) equals the functional recomputation with every *_threshold lowered by r')
         obl = []
         dict_eq(ctx, bm.thresholds, thr, 'stored thresholds untouched', obl)
+        for c in list(bm.df_features.columns):
+            obl += [(c15._eqv(ctx, u, v), 'attribute access returns the recomputed table column (not one read before the recomputation)')
+                    for u, v in zip(ctx.tolist(getattr(bm, c)), ctx.tolist(bm.df_features[c]))]
         ctx.prove_all(obl)
         return
     if step == 'group_cut':
